@@ -53,7 +53,7 @@ def const_scalar():
 
 def scalar_expr(ctx, depth=2, allow_none=True):
     d = ctx.draw
-    choice = d(st.integers(0, 16 if depth > 0 else 5))
+    choice = d(st.integers(0, 17 if depth > 0 else 5))
     if choice == 12:
         # lambda whose parameter shadows a template variable (or a builtin)
         p = d(st.sampled_from(SCALAR_VARS + ["id", "x"]))
@@ -76,6 +76,9 @@ def scalar_expr(ctx, depth=2, allow_none=True):
             st.sampled_from(["items", "keys", "values"]))], []]]]
     if choice == 16:
         return ["var", d(st.sampled_from(["id", "s0", "s1"]))]
+    if choice == 17:
+        # NOT idempotent: every evaluation consumes one item
+        return ["call", "next", [["var", "it0"], ["const", "'end'"]]]
     if choice <= 1:
         c = d(const_scalar())
         if c == "None" and not allow_none:
@@ -249,6 +252,11 @@ def text_node(ctx, interp_p=2):
     parts = []
     n = d(st.integers(1, 3))
     for _ in range(n):
+        if ctx.opts.get("global_probes", True) and d(st.integers(0, 7)) == 0:
+            # is a global definition visible here?
+            parts.append(["interp", ["pipe", [
+                ["var", d(st.sampled_from(GLOBALS))], ["const", "'nog'"]]]])
+            continue
         if ctx.opts.get("repeat_probes") and d(st.integers(0, 5)) == 0:
             # state of a loop as seen from anywhere (also outside the loop)
             parts.append(["interp", ["pipe", [
@@ -265,6 +273,13 @@ def text_node(ctx, interp_p=2):
                 parts[-1][1] += p
             else:
                 parts.append(["lit", p])
+    interps = [p for p in parts if p[0] == "interp"]
+    if interps and d(st.integers(0, 4)) == 0:
+        # the very same expression text twice in one text node: each
+        # occurrence is an evaluation of its own
+        import copy
+        parts.append(["lit", " "])
+        parts.append(copy.deepcopy(d(st.sampled_from(interps))))
     return ["text", parts]
 
 
@@ -381,9 +396,14 @@ def element(ctx, depth):
         if c == 0:
             e = ["default"]
         else:
-            e = rec(ctx, "ca", d(st.sampled_from(
-                [["const", "1"], ["const", "2"], ["const", "'a'"],
-                 ["var", "s0"], ["const", "None"], ["const", "True"]])))
+            pool = [["const", "1"], ["const", "2"], ["const", "'a'"],
+                    ["var", "s0"], ["const", "None"], ["const", "True"]]
+            if "define" in stmts:
+                # the case may use a name defined on the same element
+                # (definitions come first)
+                for _sc, names_, _e in stmts["define"]:
+                    pool += [["var", n_] for n_ in names_] * 2
+            e = rec(ctx, "ca", d(st.sampled_from(pool)))
         stmts["case"] = e
     if "condition" in chosen:
         stmts["condition"] = rec(ctx, "c", scalar_expr(ctx), "bool")
@@ -440,8 +460,13 @@ def element(ctx, depth):
                 e = rec(ctx, "at", scalar_expr(ctx))
             entries.append([n, e])
         if ctx.opts.get("dict_attrs") and d(st.integers(0, 2)) == 0:
-            entries.insert(d(st.integers(0, len(entries))),
-                           [None, ["var", "d0"]])
+            pos = d(st.integers(0, len(entries)))
+            entries.insert(pos, [None, ["var", "d0"]])
+            if d(st.booleans()) and "k" not in seen:
+                # a named entry after the dictionary that the dictionary
+                # supplies as well
+                entries.append(["k", rec(ctx, "at", scalar_expr(ctx))])
+                seen.add("k")
         # dynamic override only onto static attributes without ${}
         el["attrs"] = [a for a in el["attrs"] if not (
             a[1].lower() in seen and any(p[0] == "interp" for p in a[3]))]
@@ -525,6 +550,9 @@ def bindings_strategy():
             [[extra, a]] if extra else [])], sc, sc, st.sampled_from(
                 [None, None, "items", "keys", "values"])),
         "id": st.one_of(st.none(), sc),
+        "it0": st.builds(lambda l: ["iter", l], st.lists(
+            st.builds(lambda n: ["int", n], st.integers(0, 9)),
+            min_size=0, max_size=6)),
         "o0": st.builds(lambda a, b: ["attrobj", [["a", a], ["b", b]]],
                         sc, sc),
     })
